@@ -27,6 +27,13 @@ def variants(rng, da, aux):
     neg = da.values[..., ::-1].copy()
     out.append(("negstride", da.copy(data=neg[..., ::-1])))
     out.append(("float32", da.astype("float32")))
+    # narrow dtype AND non-contiguous memory together (a float32 block may be handed on without the copy a float64 one gets)
+    f32 = da.astype("float32")
+    big32 = np.zeros(tuple(2 * s for s in da.shape), dtype="float32")
+    big32[tuple(slice(None, None, 2) for _ in da.shape)] = f32.values
+    out.append(("float32_strided", f32.copy(data=big32[tuple(slice(None, None, 2) for _ in da.shape)])))
+    out.append(("float32_negstride", f32.copy(data=f32.values[..., ::-1].copy()[..., ::-1])))
+    out.append(("float32_fortran", f32.copy(data=np.asfortranarray(f32.values))))
     nd = da.sizes["dir"]
     ks = sorted(set([1, nd - 1, rng.randint(1, nd - 1)]))
     for k in ks:
@@ -146,7 +153,7 @@ def make_case(args):
             if tag.startswith("reversed") and op in NO_REVERSE:
                 continue
             rec = dict(op=op, variant=tag, icase=icase, dims=list(da.dims), nd=nd, nf=nf)
-            f32 = tag == "float32"
+            f32 = tag.startswith("float32")
             try:
                 got = norm(op, opcat.canon(C[op](v, aux)), da)
                 rel = 2e-4 if f32 else (3e-6 if op in opcat.FLOAT32_OUT else 1e-9)
